@@ -278,6 +278,28 @@ Section JwsProofs.
       unfold expand_payload, nonempty. rewrite Dsig. eexists; split; [reflexivity|]. cbn. repeat split; auto.
   Qed.
 
+  (* JwkDocumentExt::create_jws: whatever the signature options, the header it assembles is accepted by the compact encoder -
+     the only refusal left is the character-set test on an attached unencoded payload - and the token decodes to that
+     header, the payload and the signing input that was signed *)
+  Theorem create_jws_roundtrip o h payload sg :
+    hview h = create_jws_header o -> Forall byte_ok payload -> Forall byte_ok sg -> payload <> [] ->
+    let nd := if so_detached o then None else Some 0 in
+    (so_detached o = false -> so_b64 o = Some false -> charset_ok 0 payload = true) ->
+    exists e, enc_compact_new H hview ser_header payload h nd = Ok e /\
+      let tok := compact_into_jws e sg in
+      let det := match nd with None => Some (encode_if_b64 H hview payload (Some h)) | Some _ => None end in
+      exists it, decode_compact tok det = Ok it
+        /\ it_protected H it = Some h /\ it_unprotected H it = None
+        /\ it_si H it = ce_si e /\ it_sig H it = sg /\ it_claims H it = payload.
+  Proof.
+    intros Hv Fp Fs Pne nd Hc.
+    assert (En : exists e, enc_compact_new H hview ser_header payload h nd = Ok e).
+    { unfold enc_compact_new. pose proof (create_jws_header_valid o) as Vh. unfold enc_compact in Vh. rewrite Hv, Vh. cbn [negb].
+      unfold nd. destruct (so_detached o) eqn:D; [eexists; reflexivity|]. rewrite (create_jws_header_b64 o).
+      destruct (so_b64 o) as [[|]|] eqn:B; try (eexists; reflexivity). rewrite (Hc eq_refl eq_refl). eexists; reflexivity. }
+    destruct En as [e En]. exists e. split; [exact En|]. apply (compact_roundtrip payload h nd e sg Fp Fs Pne En).
+  Qed.
+
   Theorem flattened_roundtrip payload p u detached e sg :
     Forall byte_ok payload -> Forall byte_ok sg -> payload <> [] ->
     enc_flattened_new H hview ser_header utf8 payload p u detached = Ok e ->
